@@ -1293,7 +1293,7 @@ Theorem C16_checker_if_script : forall U (N : N) (target : Z) (fuel : nat) st,
                    /\ i_levels st' = 0 /\ i_limit st' = N /\ i_trace st' = i_trace st).
 Proof.
   intros U N target fuel st H0 HN Hi Hr.
-  unfold Molt.Check.C16.script_for. change (1 <=? 3)%Z with true.
+  unfold Molt.Check.C16.script_for. change (1 =? 6)%Z with false. change (1 <=? 3)%Z with true.
   change (false && negb (1 =? 0)%Z) with false. cbn iota. cbn [fst snd].
   set (d := Z.max ((target - 1) / 1) 0). rewrite checker_nest_if.
   intros Hf.
